@@ -177,6 +177,9 @@ fn items_of(x: &Value) -> Vec<Vec<u8>> {
         .map(|a| a.iter().map(|it| it.as_array().map(|b| b.iter().map(|v| v.as_u64().unwrap() as u8).collect()).unwrap_or_default()).collect())
         .unwrap_or_default()
 }
+fn units_of(x: &Value) -> Vec<u16> {
+    x.as_array().map(|a| a.iter().map(|v| v.as_u64().unwrap_or(0) as u16).collect()).unwrap_or_default()
+}
 fn decisions_of(x: &Value) -> Vec<i64> {
     x.as_array().map(|a| a.iter().map(|v| v.as_i64().unwrap_or(1)).collect()).unwrap_or_default()
 }
@@ -188,6 +191,7 @@ enum Out {
     Val(Vec<u8>),
     Err,
     ErrFmt,
+    ErrUtf16,
 }
 
 impl Pool {
@@ -212,7 +216,7 @@ impl Pool {
 
     /// entry points the specification treats as the same action as `op`
     pub fn variants(&self, op: &Op) -> Vec<(String, i64)> {
-        let single_char = !op.s.is_empty() && s_of(&op.s).chars().count() == 1;
+        let single_char = matches!(op.op.as_str(), "push_str" | "insert_str") && !op.s.is_empty() && s_of(&op.s).chars().count() == 1;
         let faulty = !op.f.is_empty() || op.n < 0;
         let both = |names: &[&str]| -> Vec<(String, i64)> {
             let mut v = vec![];
@@ -337,6 +341,10 @@ impl Pool {
             Ok(Out::ErrFmt) => {
                 res.cls = "err".into();
                 res.msg = "fmt".into()
+            }
+            Ok(Out::ErrUtf16) => {
+                res.cls = "err".into();
+                res.msg = "utf16".into()
             }
             Err(p) => {
                 res.cls = "panic".into();
@@ -471,6 +479,21 @@ impl Pool {
                 let it = Items { it: items.iter().map(|b| s_of(b)), calls: 0, m: op.m, hint: 0 };
                 let s: String = it.collect();
                 ss[h] = Some(s);
+                ok()
+            }
+            "from_utf8_lossy" => {
+                ss[h] = Some(String::from_utf8_lossy(&op.s).into_owned());
+                ok()
+            }
+            "from_utf16" => match String::from_utf16(&units_of(&op.x)) {
+                Ok(s) => {
+                    ss[h] = Some(s);
+                    ok()
+                }
+                Err(_) => ("err".into(), vec![]),
+            },
+            "from_utf16_lossy" => {
+                ss[h] = Some(String::from_utf16_lossy(&units_of(&op.x)));
                 ok()
             }
             "compare" => {
@@ -773,6 +796,21 @@ impl Pool {
                     other => panic!("harness: unknown collect variant {other}"),
                 };
                 self.ls[h] = Some(v);
+                Out::Ok
+            }
+            "from_utf8_lossy" => {
+                self.ls[h] = Some(LeanString::from_utf8_lossy(&op.s));
+                Out::Ok
+            }
+            "from_utf16" => match LeanString::from_utf16(&units_of(&op.x)) {
+                Ok(s) => {
+                    self.ls[h] = Some(s);
+                    Out::Ok
+                }
+                Err(_) => Out::ErrUtf16,
+            },
+            "from_utf16_lossy" => {
+                self.ls[h] = Some(LeanString::from_utf16_lossy(&units_of(&op.x)));
                 Out::Ok
             }
             "compare" => {
